@@ -42,6 +42,7 @@ type Profile struct {
 	TablesInLists      int                            // weight of data tables as the (only) content of list items and quotes
 	EscapedText        bool                           // pre blocks may hold escaped markup as visible text
 	EmptyCells         bool                           // data tables may hold empty cells and spacer rows
+	InlineNestables    bool                           // ul/ol/li/blockquote/pre may carry style="display:inline"
 	ForeignRawText     bool                           // raw-text elements with markup-like text inside svg/math (cells, captions, tweets, inline)
 	LessThanInCaptions bool                           // figure captions / paragraphs inside figures may hold a literal "<"
 	CommaURLs          bool                           // image URLs may hold commas (w_400,h_300 style path segments)
@@ -286,14 +287,22 @@ func (g *G) blocks(n int) string {
 	return b.String()
 }
 
+// nestStyle: nestable elements sometimes carry an inline display style
+func (g *G) nestStyle(label string) string {
+	if g.P.InlineNestables && g.intn(0, 7, label) == 0 {
+		return g.pick(label+"v", ` style="display:inline"`, ` style="display: inline;"`, ` style="display:inline-block"`)
+	}
+	return ""
+}
+
 func (g *G) list() string {
 	tag := g.pick("lt", "ul", "ol")
 	n := g.intn(1, 5, "li#")
 	var b strings.Builder
-	b.WriteString("<" + tag + g.at(tag) + ">\n")
+	b.WriteString("<" + tag + g.nestStyle("ulstyle") + g.at(tag) + ">\n")
 	g.depth++
 	for i := 0; i < n; i++ {
-		b.WriteString("<li" + g.at("li") + ">")
+		b.WriteString("<li" + g.nestStyle("listyle") + g.at("li") + ">")
 		switch g.weighted("lik", []wc{{"inline", 45}, {"p", 20}, {"nested", 15}, {"pre", 5}, {"quote", 5}, {"mixed", 10}, {"table", g.P.TablesInLists}, {"tabletext", g.P.TablesInLists}}) {
 		case "table":
 			b.WriteString(g.dataTable())
@@ -338,7 +347,7 @@ func (g *G) quote() string {
 	g.depth++
 	defer func() { g.depth-- }()
 	var b strings.Builder
-	b.WriteString("<blockquote" + g.at("blockquote") + ">")
+	b.WriteString("<blockquote" + g.nestStyle("bqstyle") + g.at("blockquote") + ">")
 	n := g.intn(1, 3, "q#")
 	for i := 0; i < n; i++ {
 		switch g.weighted("qk", []wc{{"p", 60}, {"list", 15}, {"pre", 10}, {"inline", 15}, {"table", g.P.TablesInLists}}) {
@@ -383,7 +392,7 @@ func (g *G) pre() string {
 	if form == "code" {
 		body = "<code>" + body + "</code>"
 	}
-	return "<pre" + g.at("pre") + ">" + body + "</pre>\n"
+	return "<pre" + g.nestStyle("prestyle") + g.at("pre") + ">" + body + "</pre>\n"
 }
 
 func (g *G) container() string {
